@@ -98,6 +98,56 @@ pub broadcast axiom fn ax_cloned_eq<T: Clone>(a: T, b: T) ensures #[trigger] clo
 pub broadcast group group_wrap { ax_key_str, ax_bar_literal, b_join1, b_join2, b_join3, ax_cloned_eq }
 ''')
 
+CB_SPEC = dict(kind='raw', label='callback_spec', text='''
+// ---------------------------------------------------------------- invalidation callbacks registered by the macros (C12, C13)
+/// R8: the key predicate handed to a conditional-invalidation callback (`&dyn Fn(&str) -> bool`) as an opaque value with a spec meaning
+pub struct Pred { pub id: u64 }
+pub uninterp spec fn pred_holds(p: Pred, k: String) -> bool;
+
+/// R4: `map.keys().filter(|k| p(k.as_str())).cloned().collect()` and the DashMap `iter().filter(..).map(|e| e.key().clone()).collect()`
+/// form (assumed contract of the std adapters: exactly the stored keys satisfying the predicate, each once)
+#[verifier::external_body]
+pub fn keys_matching<V>(m: &HashMap<String, V>, p: &Pred) -> (r: Vec<String>)
+    ensures r@.no_duplicates(), forall|k: String| #[trigger] r@.contains(k) <==> (m@.contains_key(k) && pred_holds(*p, k)),
+{ unimplemented!() }
+
+/// q with the keys ks removed one after the other (relative order of the others preserved)
+pub open spec fn rm_seq(q: Seq<String>, ks: Seq<String>) -> Seq<String>
+    decreases ks.len()
+{
+    if ks.len() == 0 { q } else { rm1(rm_seq(q, ks.drop_last()), ks.last()) }
+}
+pub broadcast proof fn b_rm_seq_step(q: Seq<String>, ks: Seq<String>, i: int)
+    requires 0 <= i < ks.len()
+    ensures #[trigger] rm_seq(q, ks.take(i + 1)) == rm1(rm_seq(q, ks.take(i)), ks[i])
+{
+    assert(ks.take(i + 1).drop_last() =~= ks.take(i));
+    assert(ks.take(i + 1).last() == ks[i]);
+}
+pub broadcast proof fn b_rm_seq_empty(q: Seq<String>, ks: Seq<String>)
+    ensures #[trigger] rm_seq(q, ks.take(0)) == q
+{ assert(ks.take(0).len() == 0); }
+pub broadcast proof fn b_take_contains(ks: Seq<String>, i: int, k: String)
+    requires 0 <= i < ks.len()
+    ensures #[trigger] ks.take(i + 1).contains(k) <==> (ks.take(i).contains(k) || ks[i] == k)
+{
+    if ks.take(i + 1).contains(k) {
+        let t1 = ks.take(i + 1); let j = choose|j: int| 0 <= j < t1.len() && t1[j] == k;
+        if j < i { assert(ks.take(i)[j] == k); }
+    }
+    if ks.take(i).contains(k) {
+        let t0 = ks.take(i); let j = choose|j: int| 0 <= j < t0.len() && t0[j] == k;
+        assert(ks.take(i + 1)[j] == k);
+    }
+    if ks[i] == k { assert(ks.take(i + 1)[i] == k); }
+}
+pub broadcast proof fn b_take_full(ks: Seq<String>, n: int)
+    requires n == ks.len()
+    ensures #[trigger] ks.take(n) == ks
+{ assert(ks.take(n) =~= ks); }
+pub broadcast group group_cb { b_rm_seq_step, b_rm_seq_empty, b_take_contains, b_take_full }
+''')
+
 BODY_SPEC = {'body2(a, b)': 'body2_spec(a, b)', 'body_res(a)': 'body_res_spec(a)', '0': '0u64'}
 HINT = (('fn_start',), 'wrap_axioms', 'broadcast use group_wrap;')
 
@@ -216,6 +266,65 @@ def norm(arg):
     return arg
 
 
+def callback_items(name, info, flavour):
+    """The clear / conditional-invalidation callbacks the macro registers for this cache, as Verus functions over the
+    cache's statics (R1: locks erased; the lock order is checked by the rank obligations on the same text)."""
+    fl = FLAV[flavour]
+    items = []
+    entry = 'CacheEntry<%s>' % info['ret'] if flavour == 'global' else '(%s, u64, u64)' % info['ret']
+    for kind, cb in sorted(info['callbacks'].items()):
+        body = cb['body']
+        log = []
+        rules = [
+            R('R1.static_write', r'\b(?:GLOBAL_OR_THREAD_CACHE_\w+) \. write \( \)', '(&mut *cache_static)', 'store lock acquisition on the static -> &mut borrow'),
+            R('R1.static_lock', r'\b(?:GLOBAL_OR_THREAD_ORDER_\w+|__ORDER_\w+) \. lock \( \)', '(&mut *order_static)', 'queue lock acquisition on the static -> &mut borrow'),
+            R('R4.keys_matching_sync', r'(@ID@) \. keys \( \) \. filter \( \| (@ID@) \| (@ID@) \( \2 \. as_str \( \) \) \) \. cloned \( \) \. collect \( \)', r'keys_matching(&*\1, \3)',
+              'keys().filter(pred).cloned().collect() -> keys_matching (assumed contract of the std adapters)'),
+            R('R4.keys_matching_async', r'\b__CACHE_\w+ \. iter \( \) \. filter \( \| (@ID@) \| (@ID@) \( \1 \. key \( \) \. as_str \( \) \) \) \. map \( \| (@ID@) \| \3 \. key \( \) \. clone \( \) \) \. collect \( \)',
+              r'keys_matching(&*cache_static, \2)', 'DashMap iter().filter(pred).map(key.clone).collect() -> keys_matching (assumed contract)'),
+            R('R1.dashmap_static', r'\b__CACHE_\w+ \. (remove|clear) \(', r'cache_static.\1(', 'DashMap static -> HashMap (R1)'),
+            R('R4.position_ref', r'(@ID@) \. iter \( \) \. position \( \| (@ID@) \| \2 == (@ID@) \)', r'vd_position_str(&*\1, \3)', 'iter().position(|k| k == key) -> first index (assumed contract)'),
+        ]
+        from extract import gen as G
+        body = G._apply_rules(body, rules, log, cb['line'], 'callback')
+        if kind == 'check':
+            pname = re.search(r'\|\s*(\w+)\s*:\s*&\s*dyn\s+Fn', ' ').group(1) if False else None
+            sig = 'fn cb_check_%s(cache_static: &mut HashMap<String, %s>, order_static: &mut VecDeque<String>, CHECKFN: &Pred) ' % (name, entry)
+            # the closure parameter name (check_fn / invalidation_check) is whatever the macro emitted
+            mparam = re.search(r'keys_matching\(&\*\w+, (\w+)\)', body)
+            pn = mparam.group(1) if mparam else 'check_fn'
+            sig = sig.replace('CHECKFN', pn)
+            M0, M1, Q0, Q1 = 'old(cache_static)@', 'final(cache_static)@', 'old(order_static)@', 'final(order_static)@'
+            ens = [
+                ('post_wf', ['C13', 'C04'], 'wf(%s, %s)' % (M1, Q1)),
+                ('removes_exactly_matching', ['C13'], 'forall|k: String| #[trigger] %s.contains_key(k) <==> (%s.contains_key(k) && !pred_holds(*%s, k))' % (M1, M0, pn)),
+                ('survivors_untouched', ['C13', 'C01'], 'forall|k: String| #[trigger] %s.contains_key(k) ==> %s[k] == %s[k]' % (M1, M1, M0)),
+                ('queue_order_preserved', ['C13', 'C07'], 'exists|ks: Seq<String>| ks.no_duplicates() && (forall|k: String| #[trigger] ks.contains(k) <==> (%s.contains_key(k) && pred_holds(*%s, k))) && %s == rm_seq(%s, ks)' % (M0, pn, Q1, Q0)),
+            ]
+            loops = {0: dict(iter='it', invariant=[
+                ('wf', 'wf(cache_static@, order_write@)' if flavour == 'async' else 'wf(map_write@, order_write@)'),
+                ('snap', 'it.snapshot@.remaining().len() == keys_to_remove@.len() && forall|j: int| 0 <= j < keys_to_remove@.len() ==> *(#[trigger] it.snapshot@.remaining()[j]) == keys_to_remove@[j]'),
+                ('keys', 'keys_to_remove@.no_duplicates() && forall|k: String| #[trigger] keys_to_remove@.contains(k) <==> (%s.contains_key(k) && pred_holds(*%s, k))' % (M0, pn)),
+                ('store', 'forall|k: String| #[trigger] %s.contains_key(k) <==> (%s.contains_key(k) && !keys_to_remove@.take(it.index@ as int).contains(k))' % ('cache_static@' if flavour == 'async' else 'map_write@', M0)),
+                ('frame', 'forall|k: String| #[trigger] %s.contains_key(k) ==> %s[k] == %s[k]' % ('cache_static@' if flavour == 'async' else 'map_write@', 'cache_static@' if flavour == 'async' else 'map_write@', M0)),
+                ('queue', 'order_write@ == rm_seq(%s, keys_to_remove@.take(it.index@ as int))' % Q0),
+            ])}
+            hints = [(('fn_start',), 'cb_axioms', 'broadcast use group_cb;'), (('loop_start', 0), 'cb_axioms_loop', 'broadcast use group_cb; assert(*key == keys_to_remove@[it.index@ as int]);')]
+            items.append(dict(kind='fn', name='cb_check_' + name, label='callback::check::' + name, sig_text=sig, body_text=body, src_line=cb['line'],
+                              src_file='macro-expansion of fixtures/src/lib.rs', requires=[('wf', 'wf(%s, %s)' % (M0, Q0))], ensures=ens, loops=loops, hints=hints,
+                              props=['C13']))
+        else:
+            sig = 'fn cb_clear_%s(cache_static: &mut HashMap<String, %s>, order_static: &mut VecDeque<String>) ' % (name, entry)
+            ens = [('empties_store_and_queue', ['C12'], 'final(cache_static)@.len() == 0 && final(order_static)@.len() == 0 && final(cache_static)@.dom() == Set::<String>::empty()'),
+                   ('post_wf', ['C12', 'C04'], 'wf(final(cache_static)@, final(order_static)@)')]
+            items.append(dict(kind='fn', name='cb_clear_' + name, label='callback::clear::' + name, sig_text=sig, body_text=body, src_line=cb['line'],
+                              src_file='macro-expansion of fixtures/src/lib.rs', ensures=ens, props=['C12']))
+    return items
+
+
+CALLBACK_EQUIV = {}
+
+
 def build(flavour):
     """Items of the wrapper unit of one flavour."""
     import importlib
@@ -234,7 +343,9 @@ def build(flavour):
         else:
             items.append(it)
     items.append(WRAP_SPEC)
+    items.append(CB_SPEC)
     exp_stripped = exp
+    seen_shapes, same_as = {}, []
     for name in sorted(attrs_all):
         attrs = attrs_all[name]
         info = W.extract(exp_stripped, name, attrs)
@@ -250,4 +361,19 @@ def build(flavour):
         items.append(dict(kind='fn', name='w_' + name, label='wrapper::' + name, sig_text=sig, body_text='{\n' + body + '\n}', src_line=info['tail_line'],
                           src_file='macro-expansion of fixtures/src/lib.rs', ret='ret', requires=req, ensures=ens, hints=[HINT], pre_log=log,
                           props=['C01', 'C02', 'C03', 'C09', 'C10', 'C11']))
+        if flavour in ('global', 'async'):
+            info['ret'] = attrs['ret']
+            cbs = callback_items(name, info, flavour)
+            for cb in cbs:
+                # every cache gets the same callback text up to the names of its statics and its value type: verify one
+                # representative per shape, and require the others to be token-identical after renaming (structural obligation)
+                shape = re.sub(r'\s+', ' ', cb['body_text'])
+                kind = cb['label'].split('::')[1]
+                key = (kind, shape)
+                if key in seen_shapes:
+                    same_as.append((cb['label'], seen_shapes[key]))
+                else:
+                    seen_shapes[key] = cb['label']
+                    items.append(cb)
+    CALLBACK_EQUIV[flavour] = same_as
     return items
